@@ -128,8 +128,14 @@ def run(tier, seed):
                 n['inc']['k'] == 'Un' and n['inc']['op'] == '++' and not written and \
                 len(subs) == 1 and astu.src(subs[0]['args'][1]) == name and \
                 not any(x['k'] in ('Break', 'Continue', 'Goto') for x in astu.walk(n['body']))
-    rep.add('ORDER', 'index-order', where(sh, ops[0].line), 'for (i = 0; i < _operations_.size(); i++) applies '
-            '_operations_[i], no break/continue, i not written in the body', okl)
+    if not okl:
+        for n in astu.walk(sh['body']):
+            if n['k'] == 'ForRange' and astu.src(n['range']) == '_operations_' and \
+                    any(c['callee']['qn'].endswith('i_event_op::operator()') for c in astu.calls(n['body'])) and \
+                    not any(x['k'] in ('Break', 'Continue', 'Goto') for x in astu.walk(n['body'])):
+                okl = True          # container order, each element once
+    rep.add('ORDER', 'index-order', where(sh, ops[0].line), 'the operations are applied in container order, each once: `for (i = 0; i < _operations_.size(); i++)` over '
+            '_operations_[i] (i not written in the body) or a range-for over _operations_; no break/continue', okl)
     ao = prog.fn('bxdecay0::decay0_generator::add_operation')
     muts = [c['callee']['qn'].split('::')[-1] for c in astu.calls(ao['body'])
             if c['k'] == 'MCall' and astu.src(c['obj']) == '_operations_' and not c['callee'].get('const')]
